@@ -202,26 +202,22 @@ def main(argv=None):
         known = load_known()
         n_new = 0
         n_known = 0
-        reported = {}
+        reported = []
         known_lines = {}
-        for v in acc.violations:
-            k = match_known(known, prop, v)
+        for count, examples in acc.violation_classes():
+            k = match_known(known, prop, examples[0])
             if k is not None:
-                n_known += 1
-                known_lines.setdefault(k["id"], (k, v))
+                n_known += count
+                known_lines.setdefault(k["id"], (k, count))
                 continue
-            n_new += 1
-            key = (v.get("part"), json.dumps(_jsonable(v.get("cls", {})),
-                                             sort_keys=True))
-            if key not in reported and len(reported) < 8:
-                reported[key] = v
-        for kid, (k, v) in sorted(known_lines.items()):
-            print("KNOWN-FINDING: property=%s %s: %s" %
-                  (prop, kid, k.get("what", "")))
-        # counts that were dropped by per-shard caps
-        extra = acc.counters.get("violations_total", 0) - len(acc.violations)
+            n_new += count
+            if len(reported) < 8:
+                reported.append((count, examples[0]))
+        for kid, (k, count) in sorted(known_lines.items()):
+            print("KNOWN-FINDING: property=%s %s (%d occurrences): %s" %
+                  (prop, kid, count, k.get("what", "")))
         rc = 0
-        for key, v in reported.items():
+        for count, v in reported:
             path = write_replay(prop, v)
             ok = True
             for _ in range(2):
@@ -232,9 +228,13 @@ def main(argv=None):
                 raise HarnessError(
                     "violation did not reproduce on replay (nondeterministic "
                     "harness?): %s\n%s" % (path, v.get("msg")))
-            print("  [%s] %s" % (v.get("part"), v.get("msg")))
+            print("  [%s] (%d occurrences) %s" % (v.get("part"), count,
+                                                 v.get("msg")))
             print("VIOLATION property=%s replay=%s" % (prop, path))
             rc = 1
+        if n_new and not reported:
+            raise HarnessError("violations counted but none recorded")
+        extra = 0
         wall = time.time() - t0
         if not args.no_evidence:
             ev = acc.evidence(prop, args.tier, seed, wall,
